@@ -23,6 +23,7 @@ import (
 	"strconv"
 	"strings"
 	"testing"
+	"time"
 
 	"github.com/gobwas/glob"
 
@@ -376,6 +377,146 @@ func vfC14GenEntry(r *vfRand, path string, sizeMax int) vfC14Entry {
 	return vfC14Entry{Path: path, Mode: "160000"}
 }
 
+// vfC14SubtreeSnapshot: the entries below directory src, with their paths relative to it.
+func vfC14SubtreeSnapshot(tr map[string]vfC14Entry, src string) (rels []string, ents []vfC14Entry) {
+	var ps []string
+	for p := range tr {
+		if strings.HasPrefix(p, src+"/") {
+			ps = append(ps, p)
+		}
+	}
+	sort.Strings(ps)
+	for _, p := range ps {
+		rels = append(rels, p[len(src):])
+		ents = append(ents, tr[p])
+	}
+	return
+}
+
+// vfC14PlaceSubtree puts a snapshot at dst, replacing whatever is there: same names, modes and blobs => the same tree object.
+func vfC14PlaceSubtree(tr map[string]vfC14Entry, dst string, rels []string, ents []vfC14Entry) {
+	for p := range tr {
+		if p == dst || strings.HasPrefix(p, dst+"/") {
+			delete(tr, p)
+		}
+	}
+	for i, rel := range rels {
+		e := ents[i]
+		e.Path = dst + rel
+		tr[e.Path] = e
+	}
+}
+
+// vfC14CopySubtree copies an existing directory of the tree to another place (a sibling, a vendored copy, below itself, ...).
+func vfC14CopySubtree(r *vfRand, tr map[string]vfC14Entry) {
+	dirSet := map[string]bool{}
+	for p := range tr {
+		for i := 0; i < len(p); i++ {
+			if p[i] == '/' {
+				dirSet[p[:i]] = true
+			}
+		}
+	}
+	if len(dirSet) == 0 {
+		return
+	}
+	dirs := vfSortedKeys(dirSet)
+	src := dirs[r.Intn(len(dirs))]
+	base := src[strings.LastIndex(src, "/")+1:]
+	dst := r.Pick([]string{"copy", "vendor/x", "third_party/" + base, src + ".bak", src + "/inner", "pkg/a/testdata", "pkg/b/testdata",
+		"src/lib/dup", "a b/" + base, "gen/" + base})
+	if dst == src || strings.HasPrefix(src+"/", dst+"/") {
+		return
+	}
+	rels, ents := vfC14SubtreeSnapshot(tr, src)
+	vfC14PlaceSubtree(tr, dst, rels, ents)
+}
+
+// vfC14Fixtures puts one small directory (possibly with a subdirectory) at two or three places.
+func vfC14Fixtures(r *vfRand, tr map[string]vfC14Entry, sizeMax int) {
+	names := []string{"/golden.txt", "/input.json", "/sub/case1.txt", "/sub/deeper/x", "/sub/run.sh", "/é.txt"}
+	var rels []string
+	var ents []vfC14Entry
+	used := map[string]bool{}
+	for k := 0; k < 1+r.Intn(4); k++ {
+		rel := r.Pick(names)
+		if used[rel] {
+			continue
+		}
+		used[rel] = true
+		rels = append(rels, rel)
+		ents = append(ents, vfC14GenEntry(r, rel, sizeMax))
+	}
+	places := []string{"pkg/a/testdata", "pkg/b/testdata", "testdata", "lib/x", "vendor/x", "src/testdata", "src/lib/testdata"}
+	n := 2 + r.Intn(2)
+	for k := 0; k < n; k++ {
+		vfC14PlaceSubtree(tr, places[r.Intn(len(places))], rels, ents)
+	}
+}
+
+// vfC14NameRejected: the entry names go-git's tree walker refuses (pathutil.ValidTreePath; only used to classify a finding).
+func vfC14NameRejected(name string) bool {
+	for i := 0; i < len(name); i++ {
+		if name[i] < 0x20 || name[i] == 0x7f {
+			return true
+		}
+	}
+	parts := strings.FieldsFunc(name, func(c rune) bool { return c == '\\' || c == '/' })
+	if len(parts) == 0 {
+		return true
+	}
+	for _, q := range parts {
+		if l := strings.ToLower(q); q == "." || q == ".." || l == ".git" || l == "git~1" {
+			return true
+		}
+	}
+	return false
+}
+
+func vfC14PathRejected(p string) bool {
+	for _, c := range strings.Split(p, "/") {
+		if vfC14NameRejected(c) {
+			return true
+		}
+	}
+	return false
+}
+
+type vfC14Ls struct{ mode, typ, sha, path string }
+
+// vfC14Forest renders the entries of `git ls-tree -r -t` (a directory right before its content) below prefix as a
+// Model/GitWalk.v gforest term; id gives the object number of a sha.
+func vfC14Forest(ents []vfC14Ls, pos *int, prefix string, id func(string) int) string {
+	var items []string
+	for *pos < len(ents) && strings.HasPrefix(ents[*pos].path, prefix) {
+		e := ents[*pos]
+		*pos++
+		mode := "GOtherMode"
+		switch {
+		case e.typ == "tree":
+			mode = "GDir"
+		case e.typ == "commit":
+			mode = "GSubmodule"
+		case e.mode == "100644":
+			mode = "GRegular"
+		case e.mode == "100755":
+			mode = "GExec"
+		case e.mode == "120000":
+			mode = "GSymlink"
+		}
+		ch := "GNil"
+		if e.typ == "tree" {
+			ch = vfC14Forest(ents, pos, e.path+"/", id)
+		}
+		items = append(items, "GCons "+cStr(e.path[len(prefix):])+" (GNode "+mode+" "+cN(uint64(id(e.sha)))+" "+ch+")")
+	}
+	out := "GNil"
+	for i := len(items) - 1; i >= 0; i-- {
+		out = "(" + items[i] + " " + out + ")"
+	}
+	return out
+}
+
 func vfC14ReadShards(dir string) ([]vfC14Doc, error) {
 	fs, err := filepath.Glob(filepath.Join(dir, "*.zoekt"))
 	if err != nil {
@@ -429,6 +570,18 @@ func vfC14View(content []byte, sizeMax int, allowLarge bool) []byte {
 		return []byte("NOT-INDEXED: contains binary content")
 	}
 	return content
+}
+
+func vfC14SameCounts(a, b map[string]int) bool {
+	if len(a) != len(b) {
+		return false
+	}
+	for k, c := range a {
+		if b[k] != c {
+			return false
+		}
+	}
+	return true
 }
 
 func vfC14DocKey(d vfC14Doc) string {
@@ -492,6 +645,20 @@ func vfC14GitPart(t *testing.T, r *vfRand, n int, tmp string) {
 			p := r.Pick(vfC14Dirs) + r.Pick(vfC14Files)
 			base[p] = vfC14GenEntry(r, p, sizeMax)
 		}
+		if r.Chance(50) { // identical directories at several paths (copies of copies, copies below the original)
+			for k := 0; k < 1+r.Intn(3); k++ {
+				vfC14CopySubtree(r, base)
+			}
+		}
+		if r.Chance(30) {
+			vfC14Fixtures(r, base, sizeMax)
+		}
+		if r.Chance(10) { // names that git accepts (fsck --strict is silent) and go-git's walker refuses
+			for k := 0; k < 1+r.Intn(2); k++ {
+				p := r.Pick([]string{"Icon\r", "tab\there.txt", "src/del\x7f.go", "we\tird/f.txt", "we\tird/sub/g.txt", "back\\..", "docs/nl\nname", "\\"})
+				base[p] = vfC14GenEntry(r, p, sizeMax)
+			}
+		}
 		patterns := []string{"vendor", "docs/", "*.tmp", "**/*.tmp", "src/lib", "gen/", "# comment", "", "README.md", "**/x", "/a b", "src/*.go", "*.md"}
 		branchNames := []string{"main", "dev", "release/1.0"}[:1+r.Intn(3)]
 		trees := map[string]map[string]vfC14Entry{}
@@ -508,7 +675,13 @@ func vfC14GitPart(t *testing.T, r *vfRand, n int, tmp string) {
 				}
 				sort.Strings(ps)
 				for j := 0; j < nm; j++ {
-					switch r.Intn(4) {
+					switch r.Intn(6) {
+					case 4: // a directory copied on this branch only
+						vfC14CopySubtree(r, tr)
+					case 5:
+						if r.Chance(40) {
+							vfC14Fixtures(r, tr, sizeMax)
+						}
 					case 0: // change content at an existing path
 						if len(ps) > 0 {
 							p := ps[r.Intn(len(ps))]
@@ -686,9 +859,10 @@ func vfC14GitPart(t *testing.T, r *vfRand, n int, tmp string) {
 		var coqBranches []string
 		var globTab []string
 		globSeen := map[string]bool{}
-		nEntries, nGitlinks, nIgnored := 0, 0, 0
-		type lsEntry struct{ mode, typ, sha, path string }
-		lsOf := map[string][]lsEntry{}
+		nEntries, nGitlinks, nIgnored, nRejected, nDupBranches := 0, 0, 0, 0, 0
+		nestedDup := false
+		var blobShas []string
+		lsOf := map[string][]vfC14Ls{}
 		var allShas bytes.Buffer
 		for _, bn := range branchNames {
 			out := vfC14Git(t, repo, nil, nil, "ls-tree", "-r", "-t", "-z", "refs/heads/"+bn)
@@ -698,7 +872,7 @@ func vfC14GitPart(t *testing.T, r *vfRand, n int, tmp string) {
 				}
 				meta, p, _ := strings.Cut(rec, "\t")
 				f := strings.Fields(meta)
-				lsOf[bn] = append(lsOf[bn], lsEntry{f[0], f[1], f[2], p})
+				lsOf[bn] = append(lsOf[bn], vfC14Ls{f[0], f[1], f[2], p})
 				if f[1] == "blob" {
 					allShas.WriteString(f[2] + "\n")
 				}
@@ -730,7 +904,7 @@ func vfC14GitPart(t *testing.T, r *vfRand, n int, tmp string) {
 						if gerr != nil {
 							t.Fatalf("case %d: pattern %q does not compile: %v", i, pat, gerr)
 						}
-						for _, e2 := range ents {
+						for _, e2 := range append([]vfC14Ls{{path: ""}}, ents...) {
 							if k := pat + "\x00" + e2.path; g.Match(e2.path) && !globSeen[k] {
 								globSeen[k] = true
 								globTab = append(globTab, cPair(cStr(pat), cStr(e2.path)))
@@ -739,30 +913,43 @@ func vfC14GitPart(t *testing.T, r *vfRand, n int, tmp string) {
 					}
 				}
 			}
-			var cents []string
+			treeCount := map[string]int{}
 			for _, e := range ents {
-				code := 0
-				switch {
-				case e.typ == "tree":
-					code = 3
-				case e.typ == "commit":
-					code = 4
-					nGitlinks++
-				case e.mode == "100755":
-					code = 1
-				case e.mode == "120000":
-					code = 2
+				if e.typ == "tree" {
+					treeCount[e.sha]++
 				}
-				id := 0
-				if e.typ == "blob" {
-					if _, ok := idOf[e.sha]; !ok {
-						idOf[e.sha] = len(idOf) + 1
-						contentOf[e.sha] = blobOf[e.sha]
+			}
+			dupHere := false
+			for _, e := range ents {
+				if e.typ == "tree" && treeCount[e.sha] >= 2 {
+					dupHere = true
+					for _, e2 := range ents {
+						if e2.typ == "tree" && strings.HasPrefix(e2.path, e.path+"/") {
+							nestedDup = true
+						}
 					}
-					id = idOf[e.sha]
+				}
+				if vfC14PathRejected(e.path) {
+					nRejected++
+				}
+			}
+			if dupHere {
+				nDupBranches++
+			}
+			for _, e := range ents {
+				if e.typ == "commit" {
+					nGitlinks++
+				}
+				if _, ok := idOf[e.sha]; !ok { // one numbering for blobs, trees and gitlinks: the walker's seen test is on the hash alone
+					idOf[e.sha] = len(idOf) + 1
+				}
+				if e.typ == "blob" {
+					if _, ok := contentOf[e.sha]; !ok {
+						contentOf[e.sha] = blobOf[e.sha]
+						blobShas = append(blobShas, e.sha)
+					}
 					nEntries++
 				}
-				cents = append(cents, cTuple(cStr(e.path), cN(uint64(code)), cN(uint64(id))))
 				if matcher.Match(e.path) && e.typ == "blob" {
 					nIgnored++
 				}
@@ -775,11 +962,11 @@ func vfC14GitPart(t *testing.T, r *vfRand, n int, tmp string) {
 				}
 				wantBranches[k] = append(wantBranches[k], bn)
 			}
-			ce := "[]"
-			if len(cents) > 0 {
-				ce = cList(cents)
+			pos := 0
+			coqBranches = append(coqBranches, cPair(cStr(bn), vfC14Forest(ents, &pos, "", func(sha string) int { return idOf[sha] })))
+			if pos != len(ents) {
+				t.Fatalf("case %d: ls-tree output of %s is not in tree order", i, bn)
 			}
-			coqBranches = append(coqBranches, cPair(cStr(bn), ce))
 		}
 		want := map[string]int{}
 		var largePaths []string
@@ -821,6 +1008,27 @@ func vfC14GitPart(t *testing.T, r *vfRand, n int, tmp string) {
 			got := map[string]int{}
 			for _, d := range docs {
 				got[vfC14DocKey(d)]++
+			}
+			want := want
+			if nRejected > 0 && !vfC14SameCounts(want, got) {
+				// paths with a component go-git's walker refuses: a file there is indexed under the name "", a directory is
+				// not descended into.  Reported under its own key; everything else must still be exact.
+				wantClean, gotClean := map[string]int{}, map[string]int{}
+				for k, c := range want {
+					if name, _, _ := strings.Cut(k, "\x00"); !vfC14PathRejected(name) {
+						wantClean[k] = c
+					} else {
+						replay["expected_document"] = k
+					}
+				}
+				for k, c := range got {
+					if name, _, _ := strings.Cut(k, "\x00"); name != "" {
+						gotClean[k] = c
+					}
+				}
+				vfOracleFail("git:"+which+":rejected-entry-name", "an entry whose name go-git's TreeWalker rejects (control character, '\\\\' with a dot part): a file is indexed under the empty name, a directory is not walked", replay)
+				delete(replay, "expected_document")
+				want, got = wantClean, gotClean
 			}
 			for k, c := range want {
 				if got[k] < c {
@@ -874,12 +1082,7 @@ func vfC14GitPart(t *testing.T, r *vfRand, n int, tmp string) {
 		}
 		// ---- correspondence record
 		var cblobs []string
-		shas := make([]string, 0, len(idOf))
-		for s := range idOf {
-			shas = append(shas, s)
-		}
-		sort.Slice(shas, func(a, b int) bool { return idOf[shas[a]] < idOf[shas[b]] })
-		for _, s := range shas {
+		for _, s := range blobShas {
 			cblobs = append(cblobs, cPair(cN(uint64(idOf[s])), cBytes(contentOf[s])))
 		}
 		cb, cl := "[]", "[]"
@@ -895,11 +1098,91 @@ func vfC14GitPart(t *testing.T, r *vfRand, n int, tmp string) {
 		}
 		coq := cTuple(cN(uint64(sizeMax)), cl, cb, cList(coqBranches), ct, vfC14CoqDocs(docsGoGit), vfC14CoqDocs(docsCatfile))
 		catfileUsed := largeFiles != nil
+		dupClass := "none"
+		switch {
+		case nDupBranches == len(branchNames):
+			dupClass = "all-branches"
+		case nDupBranches > 0:
+			dupClass = "some-branches"
+		}
 		vfCase(coq, "git:"+vfKey(coq), len(branchNames) >= 2 && nEntries >= 3,
 			[]string{fmt.Sprintf("git:branches=%d", len(branchNames)), fmt.Sprintf("git:docs=%d", min(len(docsGoGit)/3*3, 12)),
-				fmt.Sprintf("git:gitlinks=%v", nGitlinks > 0), fmt.Sprintf("git:ignored=%v", nIgnored > 0), fmt.Sprintf("git:catfile-path-used=%v", catfileUsed)},
-			map[string]any{"part": "git", "branches": len(branchNames), "blob_entries": nEntries, "gitlinks": nGitlinks, "ignored": nIgnored, "docs": len(docsGoGit)})
+				fmt.Sprintf("git:gitlinks=%v", nGitlinks > 0), fmt.Sprintf("git:ignored=%v", nIgnored > 0), fmt.Sprintf("git:catfile-path-used=%v", catfileUsed),
+				"git:same-tree-at-several-paths=" + dupClass, fmt.Sprintf("git:nested-duplicate=%v", nestedDup), fmt.Sprintf("git:rejected-names=%v", nRejected > 0)},
+			map[string]any{"part": "git", "branches": len(branchNames), "blob_entries": nEntries, "gitlinks": nGitlinks, "ignored": nIgnored, "docs": len(docsGoGit),
+				"branches_with_duplicate_trees": nDupBranches, "rejected_names": nRejected})
 		os.RemoveAll(caseDir)
+	}
+}
+
+// vfC14DeepPart: one branch whose tree is one directory level deeper than go-git's walker accepts (maxTreeDepth = 1024).
+// IndexGitRepo must come back (with the two documents, or with an error); it is run under a watchdog.
+func vfC14DeepPart(t *testing.T, tmp string) {
+	const depth = 1025
+	caseDir, err := os.MkdirTemp(tmp, "c14d-")
+	if err != nil {
+		t.Fatal(err)
+	}
+	defer os.RemoveAll(caseDir)
+	repo := filepath.Join(caseDir, "repo")
+	os.MkdirAll(repo, 0o755)
+	vfC14Git(t, repo, nil, nil, "init", "-q", "-b", "main", ".")
+	fn := filepath.Join(caseDir, "blob")
+	os.WriteFile(fn, []byte("deep content\n"), 0o644)
+	sha := strings.TrimSpace(vfC14Git(t, repo, []byte(fn+"\n"), nil, "hash-object", "-w", "--stdin-paths"))
+	deep := strings.Repeat("d/", depth) + "f.txt"
+	idx := filepath.Join(caseDir, "index-tmp")
+	env := []string{"GIT_INDEX_FILE=" + idx}
+	vfC14Git(t, repo, []byte(fmt.Sprintf("100644 %s\t%s\x00100644 %s\ttop.txt\x00", sha, deep, sha)), env, "update-index", "-z", "--index-info")
+	tree := strings.TrimSpace(vfC14Git(t, repo, nil, env, "write-tree"))
+	commit := strings.TrimSpace(vfC14Git(t, repo, []byte("c\n"), nil, "commit-tree", tree))
+	vfC14Git(t, repo, nil, nil, "update-ref", "refs/heads/main", commit)
+	indexDir := filepath.Join(caseDir, "idx")
+	os.MkdirAll(indexDir, 0o755)
+	t.Setenv("ZOEKT_DISABLE_CATFILE_BATCH", "true")
+	opts := Options{RepoDir: repo, Branches: []string{"main"}, BranchPrefix: "refs/heads",
+		BuildOptions: index.Options{IndexDir: indexDir, SizeMax: 1000, DisableCTags: true, RepositoryDescription: zoekt.Repository{Name: "repo"}}}
+	replay := map[string]any{"nested_directories": depth, "paths": []string{"d/ x 1025 + f.txt", "top.txt"},
+		"how": "one branch with the files top.txt and d/d/.../d/f.txt (1025 directory levels), built with update-index --index-info / write-tree / commit-tree; IndexGitRepo(Options{RepoDir, Branches: [main], BranchPrefix: refs/heads}) with ZOEKT_DISABLE_CATFILE_BATCH=true"}
+	type res struct {
+		err  error
+		docs []vfC14Doc
+	}
+	done := make(chan res, 1)
+	go func() {
+		defer func() {
+			if p := recover(); p != nil {
+				done <- res{err: fmt.Errorf("panic: %v", p)}
+			}
+		}()
+		_, err := IndexGitRepo(opts)
+		var docs []vfC14Doc
+		if err == nil {
+			docs, err = vfC14ReadShards(indexDir)
+		}
+		done <- res{err, docs}
+	}()
+	wait := 10 * time.Second
+	if vfTier() == "thorough" {
+		wait = 40 * time.Second
+	}
+	select {
+	case r := <-done:
+		if r.err != nil && strings.HasPrefix(r.err.Error(), "panic") {
+			replay["message"] = r.err.Error()
+			vfOracleFail("git:deep-tree-panic", "IndexGitRepo panics on a deep tree", replay)
+		} else if r.err == nil {
+			names := map[string]bool{}
+			for _, d := range r.docs {
+				names[d.Name] = true
+			}
+			if len(r.docs) != 2 || !names["top.txt"] || !names[deep] {
+				vfOracleFail("git:deep-tree-missing-document", "IndexGitRepo reports success on a deep tree but the documents are not the two files", replay)
+			}
+		}
+	case <-time.After(wait):
+		replay["waited_seconds"] = int(wait / time.Second)
+		vfOracleFail("git:deep-tree-hang", "IndexGitRepo does not return on a tree with 1025 nested directories (TreeWalker.Next keeps returning ErrMaxTreeDepth, CollectFiles only tests for io.EOF)", replay)
 	}
 }
 
@@ -913,4 +1196,5 @@ func TestVerifC14(t *testing.T) {
 	vfC14CatfilePart(r, n*3)
 	vfC14SlabPart(r, n)
 	vfC14GitPart(t, r, n, tmp)
+	vfC14DeepPart(t, tmp) // last: a hanging indexer keeps spinning until the test binary exits
 }
